@@ -18,9 +18,16 @@ import (
 	user "github.com/mimecast/dtail/internal/user/server"
 )
 
+// c02pad: every c02pad-th line of the files written next carries this many bytes of padding behind its number (c02.long)
+var c02pad, c02padEvery int
+
 func c02file(dir string, i, n int) string {
 	var sb strings.Builder
 	for k := 1; k <= n; k++ {
+		if c02pad > 0 && k%c02padEvery == 0 {
+			sb.WriteString(fmt.Sprintf("f%d:%d %s\n", i, k, strings.Repeat("p", c02pad)))
+			continue
+		}
 		sb.WriteString(fmt.Sprintf("f%d:%d\n", i, k))
 	}
 	p := filepath.Join(dir, fmt.Sprintf("f%d.txt", i))
@@ -141,6 +148,19 @@ func init() {
 		return c02run(a[0], sizes, atoi(a[2]), atoi(a[3]), 0, 0)
 	}
 
+	// c02.long <files n0+n1+..> <pad bytes> <every k-th line> : serverless dcat of files some of whose lines are long (several
+	// KiB: beyond any small read buffer, below MaxLineLength): every file must still arrive completely, the lines behind a
+	// long one included
+	ops["c02.long"] = func(a []string) string {
+		var sizes []int
+		for _, n := range strings.Split(a[0], "+") {
+			sizes = append(sizes, atoi(n))
+		}
+		c02pad, c02padEvery = atoi(a[1]), atoi(a[2])
+		defer func() { c02pad, c02padEvery = 0, 0 }()
+		return c02run("serverless", sizes, 0, 32768, 0, 0)
+	}
+
 	// c02.bad <transport> <n bad> <n good after> <lines of the first file> <hold ms>
 	// one session: a first file larger than pipe + queue (held back as in c02.many), then <n bad> files the reader
 	// cannot start on (named *.gz, not gzip data), then good files queued behind the cat limit.  Every good file
@@ -257,12 +277,18 @@ func c02run(transport string, sizes []int, delay, chunk, hold, bad int) string {
 		if l == "" {
 			continue
 		}
-		if bad > 0 && strings.HasPrefix(l, "SERVER|") {
+		if (bad > 0 || c02pad > 0) && strings.HasPrefix(l, "SERVER|") {
 			continue // the server's error message about a file it cannot read
 		}
 		p := strings.SplitN(l, ":", 2)
 		if len(p) != 2 || !strings.HasPrefix(p[0], "f") {
 			return "MALFORMED " + hx([]byte(l))
+		}
+		if sp := strings.IndexByte(p[1], ' '); sp >= 0 {
+			if strings.Trim(p[1][sp+1:], "p") != "" {
+				return "MALFORMED " + hx([]byte(l[:40]))
+			}
+			p[1] = p[1][:sp] // the padding of a long line
 		}
 		per[p[0]] = append(per[p[0]], p[1])
 	}
